@@ -97,3 +97,33 @@ impl From<&Config> for Cache {
         }
     }
 }
+
+/// Verification hooks (only compiled with the `verif` feature): build a cache from raw parts and
+///   read its private bookkeeping, so out-of-tree harnesses can start from an arbitrary state.
+#[cfg(feature = "verif")]
+impl Cache {
+    /// Builds a cache from its raw parts.
+    pub fn verif_from_parts(
+        cache_limit: usize,
+        cache_time_limit: u64,
+        cache_size: usize,
+        data: VecDeque<CachedItem>,
+    ) -> Self {
+        Self {
+            cache_limit,
+            cache_time_limit,
+            cache_size,
+            data,
+        }
+    }
+
+    /// Returns the private bookkeeping of the cache.
+    pub fn verif_parts(&self) -> (usize, u64, usize, &VecDeque<CachedItem>) {
+        (
+            self.cache_limit,
+            self.cache_time_limit,
+            self.cache_size,
+            &self.data,
+        )
+    }
+}
